@@ -13,7 +13,7 @@ Print Assumptions C20_fault_after_has_effect.
 (* ---- with faults at every scheduler-issued call (Proofs/SysProofs.v): the invariants of C04 / C06 are
    proved for EVERY accepted trace, fault labels included ---- *)
 From GK.Proofs Require Import SysProofs.
-From GK.Proofs Require RestProofs LiveProofs.
+From GK.Proofs Require RestProofs RestProofs2 LiveProofs C20Proofs.
 
 Theorem C20_no_double_or_cancelled_run_under_faults : forall tr s,
   srun sys_init tr = Some s -> srun_ok sys_init tr -> c04_ok tr = true.
@@ -47,3 +47,35 @@ Theorem C20_recovery_terminates : forall tr s q s',
   /\ (LiveProofs.at_rest s' \/ exists l s'', LiveProofs.driver_label l /\ SysProofs.sstepf s' l = Some s'' /\ RestProofs.disc s' l).
 Proof. exact LiveProofs.C05_every_schedule_terminates. Qed.
 Print Assumptions C20_recovery_terminates.
+
+(* the whole predicate the C20 check evaluates (no early / double / cancelled run, nothing due left scheduled, every
+   finished run recorded and reported once, nothing stranded in dispatched state without a run) holds of EVERY accepted
+   trace that ends at rest, with faults of every kind at the scheduler's calls, under the driver discipline the property
+   presupposes and outside the recorded finding F9b (Proofs/C20Proofs.v) *)
+Theorem C20_predicate_holds_at_rest : forall tr dump now s,
+  let tr' := (tr ++ [LDump dump now true])%list in
+  srun sys_init tr' = Some s -> srun_ok sys_init tr' ->
+  RestProofs.timer_started_first tr' = true -> RestProofs.no_user_hook_fault tr' = true ->
+  RestProofs.trace_disciplined tr' = true -> RestProofs2.taskdone_err_retried false tr' = true ->
+  postponed_in_window tr' None [] = [] -> no_postpone_retry None tr' ->
+  tm_pending (hs_timer (sy_h s)) = false -> sy_results s = [] -> sy_accepted s = [] -> sy_running s = [] ->
+  c20_ok tr' = true.
+Proof. exact C20Proofs.C20_predicate_at_rest. Qed.
+Print Assumptions C20_predicate_holds_at_rest.
+
+(* recovery: from any reachable state meeting the trace hypotheses, a fault-free continuation of at most [mu s] driver
+   and worker labels reaches rest, and the trace with the final dump satisfies the whole predicate *)
+Theorem C20_recovery : forall tr s,
+  srun sys_init tr = Some s -> srun_ok sys_init tr ->
+  RestProofs.timer_started_first tr = true -> RestProofs.no_user_hook_fault tr = true ->
+  RestProofs.trace_disciplined tr = true -> RestProofs2.taskdone_err_retried false tr = true ->
+  postponed_in_window tr None [] = [] -> no_postpone_retry None tr ->
+  exists q s', Forall LiveProofs.driver_label q /\ srun s q = Some s' /\ LiveProofs.at_rest s'
+    /\ (List.length q <= LiveProofs.mu s)%nat
+    /\ let tr'' := (tr ++ q ++ [LDump (repo_of s') (sy_now s') true])%list in
+       srun sys_init tr'' = Some s' /\ srun_ok sys_init tr'' /\ c20_ok tr'' = true.
+Proof. exact C20Proofs.C20_liveness. Qed.
+Print Assumptions C20_recovery.
+
+(* the retry discipline is needed: a driver that answers DispatchErr with Step strands the task dispatched without a run *)
+Definition C20_retry_hypotheses_needed := C20Proofs.C20_retry_hypotheses_needed.
